@@ -25,6 +25,7 @@ enum Point : int
     NODE,              // Search::search entered
     QNODE,             // Search::quiescence_search entered
     BEFORE_BESTMOVE,   // just before "bestmove" is printed
+    ASPIRATION_ROUND,  // iterative deepening: a (re-)search of the root is about to start
 };
 
 using Callback = void (*)(int point, Search* search);
